@@ -42,6 +42,12 @@ T_MASK = _tmpl("mask_reset = [max_path_len != pl for pl in path_lengths]")
 T_RESET_OBJ = _tmpl("reset_obj = [obj for obj, mask in zip(obj_list, mask_reset) if mask]")
 T_RESET_M0 = _tmpl("reset_obj_m0 = [pl for pl, mask in zip(path_lengths, mask_reset) if mask]")
 T_RECORD = _tmpl("tiled.extend(zip(reset_obj, reset_obj_m0))")
+# the variant that saves the original path objects (proposed_fixes/C08-restore-original-path-objects.diff)
+T_FINALLY_RESTORE = _tmpl(
+    "for obj, pos0, ori0 in tiled:\n"
+    "    obj._position = pos0\n"
+    "    obj._orientation = ori0\n")
+T_RECORD_ORIG = _tmpl("tiled.extend((obj, obj._position, obj._orientation) for obj in reset_obj)")
 T_TILE = _tmpl(
     "if max_path_len > 1:\n"
     "    for obj, m0 in zip(reset_obj, reset_obj_m0):\n"
@@ -184,6 +190,8 @@ def _classify(st, seen):
         return BOOKKEEPING[d]
     if d == T_RECORD:
         return "IRecord"
+    if d == T_RECORD_ORIG:
+        return "IRecordOrig"
     if d == T_TILE:
         return "ITile"
     if d == T_TRIM:
@@ -284,8 +292,12 @@ def flow(repo):
         tr = pbody[1]
         if tr.handlers or tr.orelse:
             raise Untranslatable("getBH_level2: wrapper has except/else clauses")
-        if len(tr.finalbody) != 1 or _dump(tr.finalbody[0]) != T_FINALLY:
-            raise Untranslatable("getBH_level2: the finally clause is not the known trimming loop")
+        if len(tr.finalbody) == 1 and _dump(tr.finalbody[0]) == T_FINALLY:
+            wrapper = "WFinallyTrim"
+        elif len(tr.finalbody) == 1 and _dump(tr.finalbody[0]) == T_FINALLY_RESTORE:
+            wrapper = "WFinallyRestore"
+        else:
+            raise Untranslatable("getBH_level2: the finally clause is not a known trimming / restoring loop")
         if len(tr.body) != 1 or not isinstance(tr.body[0], ast.Return) or not _is_call(tr.body[0].value, "_getBH_level2"):
             raise Untranslatable("getBH_level2: try body is not `return _getBH_level2(...)`")
         call = tr.body[0].value
@@ -295,7 +307,6 @@ def flow(repo):
         body_fn = fns["_getBH_level2"]
         if [a.arg for a in body_fn.args.args][:3] != ["sources", "observers", "tiled"]:
             raise Untranslatable("_getBH_level2: parameter list changed")
-        wrapper = "WFinallyTrim"
         n_attr = 4
     else:
         if "_getBH_level2" in fns:
@@ -304,6 +315,7 @@ def flow(repo):
         wrapper = "WPlain"
         n_attr = 4
     # effects
+    n_attr = 2 + 2 * sum(1 for st in _strip(body_fn.body) if _dump(st) == T_TRIM)
     _scan_effects(body_fn, n_attr, CALLS_BODY)
     for name, calls in CALLS_HELPERS.items():
         if name not in fns:
@@ -341,12 +353,15 @@ def flow(repo):
         if len(stores) != 1:
             raise Untranslatable(f"{nm} is assigned {len(stores)} times")
     for must in ("IDict", "IFormatSrc", "ICheckDim", "ICheckExc", "IPixAgg", "IObservers", "IPathLens", "ITile",
-                 "IGroupKeys", "IEval", "ITrim", "IOutput", "IReturn"):
+                 "IGroupKeys", "IEval", "IOutput", "IReturn"):
         if prog.count(must) != 1:
             raise Untranslatable(f"{must} occurs {prog.count(must)} times")
-    if wrapper == "WFinallyTrim" and prog.count("IRecord") != 1:
-        raise Untranslatable("wrapper has a finally but the body records nothing in `tiled`")
-    if wrapper == "WPlain" and "IRecord" in prog:
+    if prog.count("ITrim") > 1:          # the body's own reset loop is optional when the wrapper restores
+        raise Untranslatable("more than one reset loop")
+    nrec = prog.count("IRecord") + prog.count("IRecordOrig")
+    if wrapper != "WPlain" and nrec != 1:
+        raise Untranslatable("wrapper has a finally but the body does not record exactly once in `tiled`")
+    if wrapper == "WPlain" and nrec:
         raise Untranslatable("`tiled` used without the wrapper")
     return {"wrapper": wrapper, "prog": prog, "lines": lines, "body": body_fn.name, "file": path,
             "body_first_line": body_fn.lineno}
